@@ -21,6 +21,7 @@
 #include <cstdio>
 #include <cstdlib>
 #include <cstring>
+#include <ctime>
 #include <fstream>
 #include <functional>
 #include <iostream>
@@ -305,6 +306,12 @@ std::string evalCase(const Case &c, const std::function<std::string(const Case &
   currentCaseFile().store(text);
   std::string msg = run(c);
   currentCaseFile().clear();
+  // partial statistics survive a wall-clock kill (book-keeping only, never part of a verdict)
+  if (!st.frozen && (st.evaluations & 0x3f) == 0) {
+    static time_t lastFlush = time(nullptr);
+    time_t now = time(nullptr);
+    if (now - lastFlush >= 20) { lastFlush = now; flushStats("partial"); }
+  }
   if (!st.frozen && st.caseNontrivial) {
     ++st.nontrivial;
     if (st.fingerprints.size() < st.fpCap) {
